@@ -414,6 +414,9 @@ func (m *Machine) run() {
 		vis := t.granted
 		if t.NID >= 0 && !t.opRecorded && m.recordable(t) {
 			m.sched = append(m.sched, t.NID)
+			if f := t.top(); f != nil {
+				m.schedPos = append(m.schedPos, fmt.Sprintf("T%d %s", t.NID, m.pos(f.Block.Instrs[f.PC])))
+			}
 			t.opRecorded = true
 		}
 		m.step(t)
